@@ -369,6 +369,205 @@ func isSubsequenceWithHole(r, e []evRec) bool {
 	return j == len(r) && hole
 }
 
+// ---- two subscribers on one hub ----
+//
+// The hub fans every batch out to all subscribers in map order; the instrumenter hands that order to
+// the scheduler (vrt.MapKeys), and these scenarios enumerate it (vrt.PermuteMaps).
+
+type c05Two struct {
+	prefixB  string // B's prefix (A watches c05Prefix)
+	lateB    bool   // B registers inside the window, from the revision after the committed one
+	consB    string // eager | stalled   (A never reads before the end)
+	writers  [][]wop
+	watchBuf int
+}
+
+func (c c05Two) name() string {
+	var ws []string
+	for _, w := range c.writers {
+		var s []string
+		for _, o := range w {
+			s = append(s, wopNames[o])
+		}
+		ws = append(ws, strings.Join(s, ","))
+	}
+	return fmt.Sprintf("C05/two-subscribers/A=stalled(%s)/B=%s(%s,late=%v)/buf=%d/%s", c05Prefix, c.consB, c.prefixB, c.lateB, c.watchBuf, strings.Join(ws, "|"))
+}
+
+func c05TwoConfigs(tier string) []c05Two {
+	w3 := [][]wop{{wCreateX, wUpdateX, wDeleteX, wCreateX}}
+	w1b := [][]wop{{wCreateX, wCreateOut, wCreateY}}
+	out := []c05Two{
+		{c05Prefix, false, "eager", w3, 1},
+		{"/r/w/x", false, "eager", w1b, 1},
+	}
+	if tier == "thorough" {
+		out = append(out,
+			c05Two{c05Prefix, true, "eager", w3, 1},
+			c05Two{c05Prefix, false, "stalled", w3, 1},
+			c05Two{"/r/", true, "eager", w1b, 1},
+			c05Two{c05Prefix, false, "eager", [][]wop{{wCreateX, wUpdateX}, {wCreateY, wDupP}}, 2},
+		)
+	}
+	return out
+}
+
+func c05TwoScenario(c c05Two) *mc.Scenario {
+	// TolerateNondet: if a changed hub iterates its map in a form the instrumenter cannot order, the runtime's
+	// random order shows up as divergence between re-executions; that is counted, never reported as a violation
+	return &mc.Scenario{Name: c.name(), TolerateNondet: true, Body: func(x *mc.X) {
+		backend.VerifSetCapacities(2, c.watchBuf, 2)
+		defer backend.VerifSetCapacities(300, 10000, 100)
+		vrt.PermuteMaps = true
+		defer func() { vrt.PermuteMaps = false }()
+		w := newWorld(hx.Mem, 8)
+		defer w.close()
+		committed := w.b.GetCurrentRevision()
+		type sub struct {
+			name, prefix string
+			start        uint64
+			ch           <-chan []*proto.Event
+			err          error
+			recv         []evRec
+			closed       bool
+		}
+		A := &sub{name: "A", prefix: c05Prefix, start: committed + 1}
+		B := &sub{name: "B", prefix: c.prefixB, start: committed + 1}
+		ctx, cancel := context.WithCancel(bg)
+		defer cancel()
+		register := func(s *sub) { s.ch, s.err = w.b.Watch(ctx, s.prefix, s.start) }
+		take := func(s *sub, evs []*proto.Event) {
+			for _, e := range evs {
+				s.recv = append(s.recv, evRec{e.Type, e.Revision, string(e.Kv.GetKey()), string(e.Kv.GetValue()), e.Kv.GetRevision()})
+			}
+		}
+		consume := func(s *sub) {
+			for {
+				vrt.Recv(s.ch)
+				evs, ok := <-s.ch
+				vrt.Recvd()
+				if !ok {
+					s.closed = true
+					return
+				}
+				take(s, evs)
+			}
+		}
+		register(A)
+		if !c.lateB {
+			register(B)
+		}
+		vrt.Quiesce()
+		vrt.BeginExplore()
+		vrt.Go(func() {
+			if c.lateB {
+				register(B)
+			}
+			if B.err == nil && c.consB == "eager" {
+				consume(B)
+			}
+		})
+		var ths []*vrt.Thread
+		for ti, ops := range c.writers {
+			ti, ops := ti, ops
+			ths = append(ths, vrt.Go(func() {
+				xrev := uint64(0)
+				for oi, o := range ops {
+					op := &clientOp{Val: fmt.Sprintf("w%d.%d", ti, oi)}
+					switch o {
+					case wCreateX:
+						op.Key, op.Kind = "/r/w/x", rCreate
+					case wUpdateX:
+						op.Key, op.Kind, op.Exp = "/r/w/x", rUpdOK, xrev
+						if xrev == 0 {
+							op.Exp = base
+						}
+					case wDeleteX:
+						op.Key, op.Kind = "/r/w/x", rDel0
+					case wCreateY:
+						op.Key, op.Kind = "/r/w/y", rCreate
+					case wCreateOut:
+						op.Key, op.Kind = "/r/o/z", rCreate
+					case wDupP:
+						op.Key, op.Kind = "/r/w/y", rCreate
+					}
+					w.do(op)
+					if op.OK && op.Key == "/r/w/x" && !op.Kind.isDelete() {
+						xrev = op.Hdr
+					}
+				}
+			}))
+		}
+		for _, t := range ths {
+			vrt.Join(t)
+		}
+		vrt.Quiesce()
+		drain := func(s *sub) {
+			for round := 0; round < 20 && s.err == nil && s.ch != nil; round++ {
+				n, _, cl := vrt.ChanLen(s.ch)
+				if n == 0 {
+					s.closed = s.closed || cl
+					return
+				}
+				evs, ok := <-s.ch
+				if !ok {
+					s.closed = true
+					return
+				}
+				take(s, evs)
+				vrt.Quiesce()
+			}
+		}
+		drain(A)
+		if c.consB != "eager" {
+			drain(B)
+		}
+		vrt.EndExplore()
+		truth := groundTruth(w.ops)
+		var obs []string
+		for _, s := range []*sub{A, B} {
+			cls := "|two-subscribers|" + s.name
+			if s.err != nil || s.ch == nil {
+				if s.name == "A" || !c.lateB {
+					x.Fail("C05|refused-at-the-newest-revision"+cls, "watch from the revision after the committed one was refused: %v", s.err)
+				}
+				obs = append(obs, s.name+":refused")
+				continue
+			}
+			var E []evRec
+			for _, e := range truth {
+				if strings.HasPrefix(e.key, s.prefix) && e.rev >= s.start {
+					E = append(E, e)
+				}
+			}
+			for i := 1; i < len(s.recv); i++ {
+				if s.recv[i].rev <= s.recv[i-1].rev {
+					x.Fail("C05|not-increasing"+cls, "%s received %s: revisions do not strictly increase (ground truth %s)", s.name, evsString(s.recv), evsString(E))
+				}
+			}
+			ok := len(s.recv) <= len(E)
+			for i := 0; ok && i < len(s.recv); i++ {
+				ok = s.recv[i] == E[i]
+			}
+			switch {
+			case !ok && isSubsequenceWithHole(s.recv, E):
+				x.Fail("C05|continued-past-undelivered-event"+cls, "%s (prefix %s, from revision %d) received %s (closed=%v); the matching changes are %s", s.name, s.prefix, int64(s.start)-base, evsString(s.recv), s.closed, evsString(E))
+			case !ok:
+				x.Fail("C05|gap-or-mismatch"+cls, "%s (prefix %s, from revision %d) received %s (closed=%v); the matching changes are %s", s.name, s.prefix, int64(s.start)-base, evsString(s.recv), s.closed, evsString(E))
+			case !s.closed && len(s.recv) != len(E):
+				x.Fail("C05|open-but-incomplete"+cls, "%s: the stream is still open and drained at quiescence, received %s, missing the tail of %s", s.name, evsString(s.recv), evsString(E))
+			}
+			st := "complete"
+			if s.closed {
+				st = "closed"
+			}
+			obs = append(obs, fmt.Sprintf("%s:%s %d/%d", s.name, st, len(s.recv), len(E)))
+		}
+		x.Obs = strings.Join(obs, " ")
+		w.clean = true
+	}}
+}
+
 func c05Configs(tier string) []c05Cfg {
 	var out []c05Cfg
 	w1 := [][]wop{{wCreateX, wUpdateX, wDeleteX}}
@@ -428,18 +627,28 @@ func init() {
 	mc.Register(&mc.Property{
 		ID:     "C05",
 		Level:  "model_checking",
-		Rule:   "every schedule (preemption-bounded DFS with happens-before state cache) of one watcher (register, then consume eagerly / lazily / not until the end), 1-2 writers (successful and failing writes on keys inside and outside the watched prefix) and the real sequencer, fan-out hub, per-watch filter goroutine and context watcher; x event-cache sizes {1,2,3,8} incl. wrap-around x 0-4 events before the window x 7 start revisions relative to the cached window; capacities shrunk (batch 2, subscriber buffer 1-2, result channel 2) so that a stalled consumer overflows after three batches; oracle: the received sequence is a gap-free, duplicate-free prefix of the ground truth (for start 0: a contiguous run starting no later than the first write begun after registration), complete if the stream is still open at quiescence",
-		Assume: []string{"capacities shrunk: eventBatchSize=2, watchBuffer=1|2, resultChanLength=2, watchersChanCapacity=128", "at most one subscriber per hub (map iteration order not observable)", "in-memory engine"},
+		Rule:   "every schedule (preemption-bounded DFS with happens-before state cache) of one watcher (register, then consume eagerly / lazily / not until the end), 1-2 writers (successful and failing writes on keys inside and outside the watched prefix) and the real sequencer, fan-out hub, per-watch filter goroutine and context watcher; x event-cache sizes {1,2,3,8} incl. wrap-around x 0-4 events before the window x 7 start revisions relative to the cached window; capacities shrunk (batch 2, subscriber buffer 1-2, result channel 2) so that a stalled consumer overflows after three batches; oracle: the received sequence is a gap-free, duplicate-free prefix of the ground truth (for start 0: a contiguous run starting no later than the first write begun after registration), complete if the stream is still open at quiescence; plus two subscribers on one hub (one never reading, one eager or stalled, same or different prefixes, the second registering before or inside the window) with the hub's fan-out order enumerated, each judged by the same oracle",
+		Assume: []string{"capacities shrunk: eventBatchSize=2, watchBuffer=1|2, resultChanLength=2, watchersChanCapacity=128", "one subscriber per hub, except in the two-subscriber scenarios, where the hub's map iteration order is an enumerated decision of the scheduler", "in-memory engine"},
 		Scenarios: func(tier string) []*mc.Scenario {
 			var out []*mc.Scenario
 			for _, c := range c05Configs(tier) {
 				out = append(out, c05Scenario(c))
+			}
+			for _, c := range c05TwoConfigs(tier) {
+				out = append(out, c05TwoScenario(c))
 			}
 			return out
 		},
 		Drive: func(c *mc.Ctx) {
 			cfgs := c05Configs(c.Tier)
 			mc.DriveSchedules(c, func(i int, sc *mc.Scenario) mc.SchedPlan {
+				if i >= len(cfgs) {
+					p := mc.SchedPlan{Class: "two-subscribers", Bounds: []int{0, 1}, Shard: true}
+					if c.Tier == "thorough" {
+						p.Bounds = []int{0, 1, 2}
+					}
+					return p
+				}
 				p := mc.SchedPlan{Class: cfgs[i].consumer + fmt.Sprintf("/writers=%d", len(cfgs[i].writers)), Bounds: []int{0, 1}, Shard: true}
 				if c.Tier == "thorough" {
 					p.Bounds = []int{0, 1, 2}
